@@ -31,7 +31,7 @@ func main() {
 		t := NewTracer(*out)
 		f(t, NewRng(*seed), *n)
 		t.Close()
-		fmt.Printf("{\"events\":%d,\"distinct_nontrivial\":%d}\n", t.N, t.nontr)
+		fmt.Printf("{\"events\":%d,\"distinct_nontrivial\":%d,\"dropped_unrepresentable\":%d}\n", t.N, t.nontr, t.dropped)
 	case "rerun":
 		fs := flag.NewFlagSet("rerun", flag.ExitOnError)
 		ev := fs.String("event", "", "event json")
